@@ -218,3 +218,26 @@ def call_strings(body, call, F=None):
                     if v:
                         out.append(v)
     return out
+
+
+# ---------------------------------------------------------------- SQL call taxonomy
+CONN_SQL = re.compile(r"^rusqlite::Connection::(execute|execute_batch|prepare|query_row|query_one|prepare_with_flags)$"
+                      r"|^rusqlite::cache::<impl rusqlite::Connection>::prepare_cached$"
+                      r"|^rusqlite::pragma::<impl rusqlite::Connection>::pragma_(update|query_value|query|update_and_check)$"
+                      r"|^klukai_types::sqlite_pool::InterruptibleTransaction::<T>::(execute|prepare|prepare_cached|execute_batch|query_row)$")
+CONN_STEP = re.compile(r"^rusqlite::Connection::(execute|execute_batch|query_row|query_one)$"
+                       r"|^rusqlite::pragma::<impl rusqlite::Connection>::pragma_(update|update_and_check)$"
+                       r"|^klukai_types::sqlite_pool::InterruptibleTransaction::<T>::(execute|execute_batch|query_row)$")
+STMT_STEP = re.compile(r"^rusqlite::statement::Statement::<'_>::(query|execute|query_map|query_row|raw_execute|raw_query|insert|exists|query_and_then|query_one)$")
+TX_BEGIN = re.compile(r"^rusqlite::transaction::<impl rusqlite::Connection>::(transaction|transaction_with_behavior|savepoint|unchecked_transaction)$"
+                      r"|^klukai_types::sqlite::CrConn::immediate_transaction$"
+                      r"|^rusqlite::transaction::(Transaction|Savepoint)::<'_>::savepoint$"
+                      r"|^klukai_types::sqlite_pool::InterruptibleTransaction::<T>::savepoint$")
+TX_WRAP = re.compile(r"^klukai_types::sqlite_pool::InterruptibleTransaction::<T>::new$")
+COMMIT = re.compile(r"^rusqlite::transaction::(Transaction|Savepoint)::<'_>::commit$"
+                    r"|^klukai_types::sqlite_pool::InterruptibleTransaction::<T>::commit$|^klukai_types::sqlite_pool::Committable::commit$")
+
+
+def upvar_path(name):
+    """closure capture symbols of precise captures look like `self__conn`: split into a field path"""
+    return tuple(x for x in name.split("__") if x)
